@@ -5,6 +5,7 @@ import (
 	"context"
 	"errors"
 	"fmt"
+	"io"
 	"net"
 	"net/http"
 	"net/http/httputil"
@@ -430,6 +431,40 @@ func (lb *LoadBalancer) processHealthCheckResponse(backend *Backend, resp *http.
 	}
 }
 
+// idleTimeoutBody is a response body that gives up when the backend sends nothing for longer
+// than the timeout: the body is closed from a timer, which ends the read that is waiting.
+type idleTimeoutBody struct {
+	body     io.ReadCloser
+	timeout  time.Duration
+	timer    *time.Timer
+	timedOut int32
+}
+
+func newIdleTimeoutBody(body io.ReadCloser, timeout time.Duration) *idleTimeoutBody {
+	b := &idleTimeoutBody{body: body, timeout: timeout}
+	b.timer = time.AfterFunc(timeout, func() {
+		atomic.StoreInt32(&b.timedOut, 1)
+		_ = b.body.Close()
+	})
+	return b
+}
+
+func (b *idleTimeoutBody) Read(p []byte) (int, error) {
+	n, err := b.body.Read(p)
+	if n > 0 {
+		b.timer.Reset(b.timeout)
+	}
+	if err != nil && err != io.EOF && atomic.LoadInt32(&b.timedOut) == 1 {
+		err = fmt.Errorf("backend sent nothing for %v: %w", b.timeout, err)
+	}
+	return n, err
+}
+
+func (b *idleTimeoutBody) Close() error {
+	b.timer.Stop()
+	return b.body.Close()
+}
+
 // AddBackend adds a new backend server to the load balancer
 func (lb *LoadBalancer) AddBackend(backendCfg config.BackendConfig) error {
 	lb.mutex.Lock()
@@ -497,6 +532,14 @@ func (lb *LoadBalancer) AddBackend(backendCfg config.BackendConfig) error {
 	proxy.ModifyResponse = func(res *http.Response) error {
 		if res.StatusCode < 100 || res.StatusCode > 999 {
 			return fmt.Errorf("backend sent invalid status code %d", res.StatusCode)
+		}
+		// backend_read also bounds the silence of a backend in the middle of a response body
+		// (the transport only bounds the wait for the response header): a backend that stalls
+		// after its header would otherwise pin the client, a connection and a gauge slot until it
+		// closes. A stream is fine as long as something arrives within the timeout; an upgraded
+		// connection (101) is a tunnel that may stay quiet and is left alone.
+		if res.StatusCode != http.StatusSwitchingProtocols && res.Body != nil {
+			res.Body = newIdleTimeoutBody(res.Body, readTimeout)
 		}
 		return nil
 	}
